@@ -161,6 +161,19 @@ type iterState struct {
 	IsStr bool
 	IsMap bool
 	Key   string // ghost key holding next index
+	Vis   string // map ranges: ghost key of the set of keys produced so far ("" = not tracked)
+	Had   string // map ranges: ghost key of the key set when the range statement started
+}
+
+// ghostSort: SMT sort of a ghost-state entry, by key prefix.
+func ghostSort(k string) string {
+	switch {
+	case strings.HasPrefix(k, "held:"), strings.HasPrefix(k, "b:"):
+		return "Bool"
+	case strings.HasPrefix(k, "vis:"), strings.HasPrefix(k, "had:"):
+		return "(Array Int Bool)"
+	}
+	return "Int"
 }
 
 type EncOpts struct {
